@@ -1013,3 +1013,95 @@ Qed.
 Theorem dyn_into_bytes b bits : R FDyn b bits -> bd_into_bytes b = a_ssz FDyn bits.
 Proof. intros H. apply (R_ssz FDyn b bits H). Qed.
 
+
+(** ** SSZ round trip on representations, and the [arbitrary] generators *)
+(* decoding the SSZ encoding of a bitfield gives back the very same representation (C18, C20) *)
+Theorem decode_ssz_round_trip fl b bits : R fl b bits ->
+  wfb (i_ssz fl b) /\ i_decode fl (i_ssz fl b) = Ok b.
+Proof.
+  intros HR. pose proof (R_Inv _ _ _ HR) as HI. pose proof HI as (Hlen & Hw & Hz).
+  pose proof (R_len_ok _ _ _ HR) as Hok.
+  destruct fl as [cap|m|]; cbn [i_ssz i_decode len_ok] in *.
+  - destruct (bl_into_bytes_spec b HI) as (b2 & Hinto & HI2 & Hl2 & Hb2). rewrite Hinto.
+    pose proof HI2 as (Hlen2 & Hw2 & _). split; [exact Hw2|].
+    destruct (bl_from_bytes_intro cap (bf_bytes b2) (bf_len b)) as (b3 & H3 & HI3 & Hl3 & Hb3); auto.
+    + rewrite Hlen2, Hl2. unfold bytes_for_bit_len. lia.
+    + rewrite Hb2, N.eqb_refl. reflexivity.
+    + intros j Hj. rewrite Hb2. replace (j =? bf_len b) with false by lia. apply Hz. lia.
+    + rewrite H3. f_equal. apply Inv_ext; auto. intros i Hi.
+      rewrite Hb3 by lia. rewrite Hb2. replace (i =? bf_len b) with false by lia. reflexivity.
+  - unfold bv_into_bytes, bv_from_bytes. split; [exact Hw|].
+    rewrite <- Hok. apply from_raw_bytes_of_Inv, HI.
+  - unfold bd_into_bytes. split; [exact Hw|].
+    assert (Hne : bf_bytes b <> []).
+    { intros E. rewrite E, len_nil in Hlen. unfold bytes_for_bit_len in Hlen. lia. }
+    rewrite bd_decode_eq by exact Hne.
+    replace (len (bf_bytes b) * 8) with (bf_len b)
+      by (rewrite Hlen; unfold bytes_for_bit_len; lia).
+    apply from_raw_bytes_of_Inv, HI.
+Qed.
+
+Lemma wfb_fill_buffer data n : wfb data ->
+  wfb (fst (fill_buffer data n)) /\ wfb (snd (fill_buffer data n)).
+Proof.
+  intros Hw. unfold fill_buffer. cbn [fst snd]. split.
+  - apply wfb_app. split; [apply wfb_take, Hw | apply wfb_zeros].
+  - apply wfb_drop, Hw.
+Qed.
+Lemma wfb_arb_vec_buf n data : wfb data -> wfb (fst (fill_buffer data (bytes_for_bit_len n))).
+Proof. intros Hw. apply wfb_fill_buffer, Hw. Qed.
+Lemma wfb_arb_list_buf n data : wfb data ->
+  wfb (fst (fill_buffer (snd (arbitrary_usize data)) (N.min (fst (arbitrary_usize data)) n))).
+Proof.
+  intros Hw. apply wfb_fill_buffer. unfold arbitrary_usize. cbn [snd]. apply wfb_fill_buffer, Hw.
+Qed.
+
+Lemma decode_ok_R fl bs b : wfb bs -> i_decode fl bs = Ok b -> exists bits, R fl b bits.
+Proof.
+  intros Hw H. pose proof (R_decode fl bs Hw) as HD. rewrite H in HD.
+  destruct (a_decode fl bs) as [bits| |]; [eauto | contradiction | contradiction].
+Qed.
+
+Theorem arb_bitvector_sound n data b : wfb data ->
+  arb_bitvector n data = Ok b -> exists bits, R (FVec n) b bits.
+Proof.
+  intros Hw H. unfold arb_bitvector in H. cbv zeta in H.
+  apply (decode_ok_R (FVec n) _ b (wfb_arb_vec_buf n data Hw)). exact H.
+Qed.
+Theorem arb_bitlist_sound n data b : wfb data ->
+  arb_bitlist n data = Ok b -> exists bits, R (FList n) b bits.
+Proof.
+  intros Hw H. unfold arb_bitlist in H. cbv zeta in H.
+  apply (decode_ok_R (FList n) _ b (wfb_arb_list_buf n data Hw)). exact H.
+Qed.
+Theorem arb_no_panic n data : wfb data -> arb_bitvector n data <> Panic /\ arb_bitlist n data <> Panic.
+Proof.
+  intros Hw. split.
+  - unfold arb_bitvector. cbv zeta. apply bitvector_no_panic.
+  - unfold arb_bitlist. cbv zeta. apply bitlist_no_panic, wfb_arb_list_buf, Hw.
+Qed.
+
+Theorem arb_bitvector_reachable n : exists b, arb_bitvector n [] = Ok b.
+Proof.
+  exists (zero_bf n). unfold arb_bitvector, fill_buffer. cbv zeta. cbn [fst].
+  change (len []) with 0. rewrite N.min_0_r, N.sub_0_r.
+  change (take 0 []) with (@nil N). cbn [app].
+  apply (from_raw_bytes_of_Inv (zero_bf n)), Inv_zero.
+Qed.
+
+Theorem arb_bitlist_reachable n : 1 <= n -> exists b, arb_bitlist n [1; 0; 0; 0; 0; 0; 0; 0; 1] = Ok b.
+Proof.
+  intros Hn. unfold arb_bitlist. cbv zeta.
+  assert (Hu : arbitrary_usize [1; 0; 0; 0; 0; 0; 0; 0; 1] = (1, [1])) by (vm_compute; reflexivity).
+  rewrite Hu. cbn [fst snd]. replace (N.min 1 n) with 1 by lia.
+  assert (Hf : fill_buffer [1] 1 = ([1], [])) by (vm_compute; reflexivity).
+  rewrite Hf. cbn [fst].
+  destruct (bl_from_bytes_intro n [1] 0) as (b & Hb & _).
+  - constructor; [lia | constructor].
+  - reflexivity.
+  - lia.
+  - reflexivity.
+  - intros j Hj. rewrite bit_at_cons, bit_at_nil. destruct (j <? 8); [|reflexivity].
+    apply N.bits_above_log2. exact Hj.
+  - exists b. exact Hb.
+Qed.
